@@ -438,6 +438,37 @@ func (r *c12run) afterErrors(c content, mode int, req [][]byte, m *model.WModel,
 			break
 		}
 		atomic.AddInt64(&r.faults, 1)
+		// an export that reports SUCCESS although a storage read failed under it must be a full export: it
+		// deserialises, and every requested key can be changed on the partial trie as on the source
+		{
+			src1, m1, st1 := buildTrieS(c, Shared(false), mode)
+			st1.ArmGetFault(k)
+			exp1, err1 := src1.GetPath(req)
+			st1.ArmGetFault(-1)
+			if err1 == nil {
+				what1 := fmt.Sprintf("storage read %d of GetPath failed and GetPath reported success", k)
+				p1 := wmpt.New(nil, nil)
+				if err := p1.Deserialize(exp1); err != nil {
+					r.violate("fault-swallowed-des", fmt.Sprintf("%s: %s: the export does not deserialise: %v", describe(), what1, err), replay)
+					return false
+				}
+				if !step(what1, src1, p1, m1) {
+					return false
+				}
+				for qi, q := range req {
+					v := []byte(fmt.Sprintf("after-fault-%d", qi))
+					ea, eb := src1.Update(q, v, 3), p1.Update(q, v, 3)
+					if ea != nil || eb != nil {
+						r.violate("fault-swallowed-op", fmt.Sprintf("%s: %s, then an update of requested key %d: source %v, partial trie %v", describe(), what1, qi, ea, eb), replay)
+						return false
+					}
+					m1.M[string(q)] = modelEntry(q, v, 3)
+					if !step(fmt.Sprintf("%s, then an update of requested key %d", what1, qi), src1, p1, m1) {
+						return false
+					}
+				}
+			}
+		}
 		what := fmt.Sprintf("storage read %d of GetPath failed, GetPath called again", k)
 		export, err := src.GetPath(req)
 		if err != nil {
